@@ -37,6 +37,13 @@ def plan(ctx):
             sets += rnd.sample(big, min(len(big), 2 if not thorough else 8))
         for i, ch in enumerate(chunks(sets, 1)):
             obs.append(be_l1_ob(be, k, m, hd, ch, tag="l1rec", idx=i, timeout=1500))
+    # flat-XOR reconstruct through the adapter's op table: every erasure set below hd of one hd=4 table (every erased index
+    # is reconstructed on its own in be_l1.c); rare patterns (two data + one parity whose only private parity is the lost
+    # one) are easy to miss by sampling
+    for (k, m, hd) in [(5, 5, 4)] + ([(6, 6, 4), (10, 5, 4), (6, 6, 3)] if thorough else []):
+        sets = list(esets(k + m, 1, hd - 1))
+        for i, ch in enumerate(chunks(sets, 16)):
+            obs.append(be_l1_ob(XOR, k, m, hd, ch, tag="l1recx", idx=i, timeout=1500))
     return {"obs": obs,
             "assumptions": ["reconstructed fragment compared byte for byte (header, both checksums, payload) with the independent serializer's fragment for the same data",
                             "LIBERASURECODE_WRITE_LEGACY_CRC unset", "L2 shapes k+m<=4 (5 in thorough); larger shapes at the back-end interface"],
